@@ -1939,3 +1939,134 @@ func placesPlaceholder(f *ssa.Function) bool {
 	}
 	return false
 }
+
+// ExclusionPerOperand (C05.11): "the subtracted side" of an exclusion is its last OPERAND. Found where a loop position
+// is compared with "the last one" (len(X)-1): X must be the list of operands, not the list of edges — a subtracted
+// tuple to userset over several parent types is several edges, and all but the last would count as the base.
+func ExclusionPerOperand(p *load.Prog, r *oblig.Report, rule string, funcs []*ssa.Function) {
+	n := 0
+	for _, fn := range funcs {
+		if fn.Pkg == nil || fn.Pkg.Pkg.Name() != "graph" {
+			continue
+		}
+		for _, b := range fn.Blocks {
+			for _, in := range b.Instrs {
+				bo, ok := in.(*ssa.BinOp)
+				if !ok || (bo.Op != token.NEQ && bo.Op != token.EQL && bo.Op != token.LSS && bo.Op != token.GEQ) {
+					continue
+				}
+				var list ssa.Value
+				for _, side := range []ssa.Value{bo.X, bo.Y} {
+					sub, ok := side.(*ssa.BinOp)
+					if !ok || sub.Op != token.SUB {
+						continue
+					}
+					if k, ok := sub.Y.(*ssa.Const); !ok || k.Value == nil || k.Int64() != 1 {
+						continue
+					}
+					if lc, ok := sub.X.(*ssa.Call); ok {
+						if bi, isB := lc.Common().Value.(*ssa.Builtin); isB && bi.Name() == "len" {
+							list = lc.Common().Args[0]
+						}
+					}
+				}
+				if list == nil {
+					continue
+				}
+				sl, ok := list.Type().Underlying().(*types.Slice)
+				if !ok {
+					continue
+				}
+				construct := "exclusion-per-operand:" + load.FuncName(fn)
+				switch {
+				case strings.HasSuffix(sl.Elem().String(), "WeightedAuthorizationModelEdge"):
+					n++
+					r.Bad(rule, construct, p.Pos(bo.Pos()), "the subtracted side is taken to be the last EDGE ("+stripUnique(AccessPath(list))+"): a subtracted tuple to userset over two parent types (or a restriction with two types) is two edges, and the first of them is counted as part of the base, so its types leak into the exclusion and into every intersection above it")
+				default:
+					if _, isMap := sl.Elem().Underlying().(*types.Map); isMap {
+						n++
+						r.OK(rule, construct, p.Pos(bo.Pos()), "value-origin", "the last element of a list of operand weight sets")
+					}
+				}
+			}
+		}
+	}
+	if n == 0 {
+		r.Unknown(rule, "exclusion-per-operand", "-", "no place found where a loop position is compared with the last operand: the mixed strategy is written in a way this rule does not read")
+	}
+}
+
+// RootReachesSomething (C05.12): where the root of a tuple cycle is resolved (the function that forms the root's
+// own placeholder key "R#"+root and stores the root's weights), the stored weight set was tested for emptiness on the
+// way and the empty case ends in an error: a relation whose edges all lead back into its own cycle reaches no user
+// type at all.
+func RootReachesSomething(p *load.Prog, r *oblig.Report, rule string, funcs []*ssa.Function) {
+	n := 0
+	for _, fn := range funcs {
+		if fn.Pkg == nil || fn.Pkg.Pkg.Name() != "graph" || !returnsErr(fn) {
+			continue
+		}
+		formsKey := false
+		for _, b := range fn.Blocks {
+			for _, in := range b.Instrs {
+				if bo, ok := in.(*ssa.BinOp); ok && bo.Op == token.ADD {
+					if c, ok := bo.X.(*ssa.Const); ok && c.Value != nil && c.Value.Kind() == constant.String && constant.StringVal(c.Value) == "R#" {
+						if _, isParam := bo.Y.(*ssa.Parameter); isParam {
+							formsKey = true
+						}
+					}
+				}
+			}
+		}
+		if !formsKey {
+			continue
+		}
+		for _, b := range fn.Blocks {
+			for _, in := range b.Instrs {
+				st, ok := in.(*ssa.Store)
+				if !ok {
+					continue
+				}
+				fa, ok := st.Addr.(*ssa.FieldAddr)
+				if !ok || structFieldName(fa.X.Type(), fa.Field) != "weights" || !strings.HasSuffix(deref(fa.X.Type()).String(), "WeightedAuthorizationModelNode") {
+					continue
+				}
+				n++
+				construct := "root-reaches-something:" + load.FuncName(fn)
+				tested := false
+				for _, ce := range DominatingConds(b) {
+					bo, ok := ce.Cond.(*ssa.BinOp)
+					if !ok {
+						continue
+					}
+					isLen := func(v ssa.Value) bool {
+						c, ok := v.(*ssa.Call)
+						if !ok {
+							return false
+						}
+						bi, ok := c.Common().Value.(*ssa.Builtin)
+						return ok && bi.Name() == "len" && c.Common().Args[0] == st.Val
+					}
+					zero := func(v ssa.Value) bool {
+						c, ok := v.(*ssa.Const)
+						return ok && c.Value != nil && c.Value.Kind() == constant.Int && constant.Sign(c.Value) == 0
+					}
+					if (isLen(bo.X) && zero(bo.Y)) || (isLen(bo.Y) && zero(bo.X)) {
+						nonEmptyHere := (bo.Op == token.EQL && !ce.Branch) || (bo.Op == token.NEQ && ce.Branch) || (bo.Op == token.GTR && ce.Branch)
+						if nonEmptyHere {
+							tested = true
+						}
+					}
+				}
+				if tested {
+					r.OK(rule, construct, p.Pos(st.Pos()), "dominating-test", "the root's weights are stored only when they are not empty")
+				} else {
+					r.Bad(rule, construct, p.Pos(st.Pos()), "the weights of a resolved cycle root are stored without a test for emptiness: when every edge of the root leads back into its own cycle ('define a: [doc#a]', 'a: [doc#b]' with 'b: [doc#a]') the set is empty, the model is accepted and the relation reaches no user type")
+				}
+			}
+		}
+	}
+	if n == 0 {
+		r.Unknown(rule, "root-reaches-something", "-", "no function found that forms a root's own placeholder key and stores the root's weights: anchors no longer resolve")
+	}
+}
